@@ -6,7 +6,7 @@
    exceptional exit satisfies E.  `unchanged h h'` = every cell of every block, the set of live blocks, their
    sizes and all data-member registers are exactly as before (strong guarantee incl. "nothing leaked"). *)
 From Coq Require Import List Arith Lia Bool.
-From C04 Require Import Effects ObjMgr ArrayData Ctor KeyValue Tree Relocator Replace PlanWf MultiMap.
+From C04 Require Import Effects ObjMgr ArrayData Ctor KeyValue Tree Relocator Replace PlanWf MultiMap SetCount HashGrow.
 Import ListNotations.
 
 (* ObjectManager::RelocateExec (both overloads of pvRelocateExec, ObjectManager.h:508-535), for every element
@@ -408,3 +408,60 @@ Theorem multimap_removekey_rollback :
          (fun s' => heq (hp s) (hp s')).
 Proof. exact multimap_remove_key_spec. Qed.
 Print Assumptions multimap_removekey_rollback.
+
+(* Array::SetCount(count, item) (SetCountCrt, Array.h:663-710), the branch within the capacity: the new items are created in
+   place, a failing creation destroys those created so far -> everything as before *)
+Theorem array_setcount_inplace_strong :
+  forall arg v newCount s,
+    arr_inv (hp s) -> regs (hp s) rCount <= newCount -> newCount <= regs (hp s) rCap -> regs (hp s) rCap > 0 ->
+    valid (hp s) arg = true -> mem (hp s) arg = Live v -> fst arg <> regs (hp s) rItems ->
+    wp (array_setcount_nogrow arg newCount) s
+       (fun _ s' => regs (hp s') rCount = newCount /\
+                    (forall j, regs (hp s) rCount <= j < newCount -> mem (hp s') (regs (hp s) rItems, j) = Live v) /\
+                    (forall l, (forall j, regs (hp s) rCount <= j < newCount -> (regs (hp s) rItems, j) <> l) -> mem (hp s') l = mem (hp s) l))
+       (fun s' => unchanged (hp s) (hp s')).
+Proof. exact array_setcount_nogrow_spec. Qed.
+Print Assumptions array_setcount_inplace_strong.
+
+(* ... and the branch beyond the capacity: Reset with the creator "create the new items in the new block, then relocate the old
+   ones; on failure destroy the new items" -- every category, every count, every schedule *)
+Theorem array_setcount_grow_strong :
+  forall c capacity newCount arg v s,
+    wf (hp s) -> arr_inv (hp s) -> regs (hp s) rCount <= newCount -> newCount <= capacity ->
+    valid (hp s) arg = true /\ mem (hp s) arg = Live v /\ fst arg <> regs (hp s) rItems ->
+    wp (array_setcount_grow c capacity newCount arg) s
+       (fun _ s' => regs (hp s') rItems = next (hp s) /\ regs (hp s') rCount = newCount /\ regs (hp s') rCap = capacity /\
+                    (regs (hp s) rCap > 0 -> alive (hp s') (regs (hp s) rItems) = false) /\
+                    (forall i, i < regs (hp s) rCount -> mem (hp s') (next (hp s), i) = mem (hp s) (regs (hp s) rItems, i)) /\
+                    (forall i, regs (hp s) rCount <= i < newCount -> mem (hp s') (next (hp s), i) = Live v))
+       (fun s' => same_res (hp s) (hp s')).
+Proof. exact array_setcount_grow_spec. Qed.
+Print Assumptions array_setcount_grow_strong.
+
+(* The documented strength of the Array / SegmentedArray operations (Array.h:181-186) as a table: `documented` gives
+   Strong / Nothrow for everything except Insert/Remove at a position (Basic); `proved o` is the strong-guarantee (or cannot-throw)
+   statement of the modelled operation o in the `run op s = (Exn, s') -> ...` form; Insert/Remove at a position are not modelled. *)
+Theorem array_strength_table : forall o, proved o.
+Proof. exact array_strength_table_proved. Qed.
+Print Assumptions array_strength_table.
+
+(* HashSet::pvAddGrow (HashSet.h:1146-1185) for a set that has no buckets yet: Buckets::Create allocates the table and the
+   BucketParams; if creating them or adding the item to the new table throws, the catch blocks free exactly what was allocated
+   (Destroy(memManager, !hasBuckets)) -- for every strongly safe way of adding the item and every schedule *)
+Theorem pv_add_grow_first_strong :
+  forall (nb newCap : nat) (add_old : M unit) (add_new : nat -> M unit) (Pn : heap -> Prop),
+    (forall tb s, Pn (hp s) -> alive (hp s) tb = true -> wp (add_new tb) s (fun _ _ => True) (fun s' => same_res (hp s) (hp s'))) ->
+    (forall h h', heq h h' -> Pn h -> Pn h') -> (forall h n, wf h -> Pn h -> Pn (halloc h n)) ->
+    forall s, wf (hp s) -> Pn (hp s) ->
+      wp (pv_add_grow false nb newCap add_old add_new) s
+         (fun _ s' => regs (hp s') rBuckets = S (next (hp s)) /\ regs (hp s') rParams = S (S (next (hp s))) /\ regs (hp s') rHCap = newCap)
+         (fun s' => same_res (hp s) (hp s')).
+Proof. exact pv_add_grow_first_spec. Qed.
+Print Assumptions pv_add_grow_first_strong.
+
+(* ... and the shape Destroy(memManager, false) leaks the BucketParams on the same run where the real shape frees everything *)
+Theorem pv_add_grow_params_leak_refuted :
+  exists s', pv_add_grow_keep_params false 8 5 (ret tt) (bucket_add0 (0, 0)) grow_demo = (Exn, s') /\
+             alive (hp s') 2 = true /\ alive (hp grow_demo) 2 = false.
+Proof. exact pv_add_grow_keep_params_leaks. Qed.
+Print Assumptions pv_add_grow_params_leak_refuted.
